@@ -20,6 +20,7 @@ import (
 	"sort"
 	"strings"
 	"sync"
+	"sync/atomic"
 	"testing"
 	"time"
 
@@ -46,7 +47,67 @@ type phase struct {
 	// OnHold is sent when the slow event channel announces that it is delivering a report
 	// of the Hold source (the detector is then busy inside Send)
 	OnHold []probe `json:"on_hold,omitempty"`
+	// SpanMs > 0: a scan that takes its time - the first Head probes leave back to back,
+	// the others follow evenly spread over SpanMs (gaps far below the detector's 5 s quiet
+	// period, so it is still one burst), written by a goroutine of the child
+	Head   int `json:"head,omitempty"`
+	SpanMs int `json:"span_ms,omitempty"`
 }
+
+// maxGapMs: a paced burst counts only when no two consecutive probes were really written
+// more than this apart (half the detector's quiet period); otherwise the machine stalled
+// the sender and the case is dropped as inconclusive.
+const maxGapMs = 2500
+
+// delays returns the pause before each probe of a paced phase.
+func (p phase) delays() []int {
+	n := len(p.Probes)
+	head := p.Head
+	if head < 0 {
+		head = 0
+	}
+	if head > n {
+		head = n
+	}
+	d := make([]int, n)
+	if tail := n - head; tail > 0 {
+		gap := p.SpanMs / tail
+		if gap > 1500 {
+			gap = 1500
+		}
+		for i := head; i < n; i++ {
+			d[i] = gap
+		}
+	}
+	return d
+}
+
+// maxGroupGapMs bounds, by construction, the pause between two consecutive probes of one
+// (source, protocol) group inside a paced burst; with less than maxExcessMs of delay
+// added by the machine every group's probes stay well inside one quiet period.
+const (
+	maxGroupGapMs = 2000
+	maxExcessMs   = 2000
+)
+
+// groupGapMs returns the largest planned pause between consecutive probes of one
+// (source, protocol) group.
+func (p phase) groupGapMs() int {
+	d := p.delays()
+	last := map[string]int{}
+	t, worst := 0, 0
+	for i, pr := range p.Probes {
+		t += d[i]
+		g := fmt.Sprintf("%d/%s", pr.Src, pr.Proto)
+		if at, ok := last[g]; ok && t-at > worst {
+			worst = t - at
+		}
+		last[g] = t
+	}
+	return worst
+}
+
+var inconclusivePaced int64
 
 type scanCase struct {
 	Phases []phase `json:"phases"`
@@ -236,6 +297,23 @@ func judge(want map[string]map[string]bool, got []scanReport) error {
 			return fmt.Errorf("source %s probed exactly %s; its %d port-scan event(s) list %s: never reported %s, listed more than once %s, not probed %s",
 				src, short(w), nev[src], short(ports), short(missing), short(dup), short(extra))
 		}
+		// exactly once per burst: the listener groups by protocol, so a burst over k
+		// protocols may come as k events (accepted); more events than that means the one
+		// burst was reported in pieces
+		protos := map[string]bool{}
+		for p := range want[src] {
+			protos[strings.SplitN(p, "/", 2)[0]] = true
+		}
+		if nev[src] > len(protos) {
+			var sizes []string
+			for _, g := range got {
+				if g.src == src {
+					sizes = append(sizes, fmt.Sprintf("%d", len(g.ports)))
+				}
+			}
+			return fmt.Errorf("source %s sent one burst (%d distinct protocol/port pairs over %d protocol(s)) and is reported split over %d port-scan events for one burst, listing %s pairs respectively: none of them lists the set of ports probed, the burst is not reported exactly once",
+				src, len(want[src]), len(protos), nev[src], strings.Join(sizes, " + "))
+		}
 	}
 	return nil
 }
@@ -265,6 +343,9 @@ func runBatch(l cl.Local, cases []scanCase) ([]error, error) {
 		}
 	}
 	verdicts := make([]error, len(cases))
+	pacedCalls := make([]int, len(cases))
+	pacedNow := make([]bool, len(cases))
+	dropped := make([]bool, len(cases)) // inconclusive: never judged
 	for ph := 0; ph < nph; ph++ {
 		marks := make([]int, len(cases))
 		var wg sync.WaitGroup
@@ -290,12 +371,40 @@ func runBatch(l cl.Local, cases []scanCase) ([]error, error) {
 					}
 				}(ks[i], frames(l, p.OnHold), ks[i].Holds()+1)
 			}
+			if p.SpanMs > 0 {
+				pacedCalls[i]++
+				pacedNow[i] = true
+				if err := ks[i].SendPaced(frames(l, p.Probes), p.delays()); err != nil {
+					return nil, fmt.Errorf("sending probes: %v (child: %s)", err, ch.Death())
+				}
+				continue
+			}
 			if err := ks[i].SendMany(frames(l, p.Probes)); err != nil {
 				return nil, fmt.Errorf("sending probes: %v (child: %s)", err, ch.Death())
 			}
 		}
 		if err := ch.Ping(); err != nil {
 			return nil, fmt.Errorf("child: %v %s", err, ch.Death())
+		}
+		// paced bursts: wait until the child has written the last probe; a burst whose
+		// probes were not written in time (overloaded machine) is not judged at all
+		for i, c := range cases {
+			if !pacedNow[i] {
+				continue
+			}
+			pacedNow[i] = false
+			acc, ok := ks[i].WaitPaced(pacedCalls[i], time.Duration(c.Phases[ph].SpanMs)*time.Millisecond+90*time.Second)
+			if ch.Dead() {
+				break
+			}
+			if !ok {
+				return nil, fmt.Errorf("the child did not finish a paced burst of %d ms within 90 s after its end", c.Phases[ph].SpanMs)
+			}
+			last := acc[len(acc)-1]
+			if last.Err != "" || last.Sent != len(c.Phases[ph].Probes) || last.MaxGapMs >= maxGapMs || last.ExcessMs >= maxExcessMs || c.Phases[ph].groupGapMs() > maxGroupGapMs {
+				dropped[i] = true
+				atomic.AddInt64(&inconclusivePaced, 1)
+			}
 		}
 		start := time.Now()
 		pending := map[int]bool{}
@@ -310,6 +419,10 @@ func runBatch(l cl.Local, cases []scanCase) ([]error, error) {
 			deadline := start.Add(time.Duration(round+1) * firstWait)
 			for i, c := range cases {
 				if !pending[i] {
+					continue
+				}
+				if dropped[i] {
+					delete(pending, i)
 					continue
 				}
 				want := c.Phases[ph].expected()
@@ -340,7 +453,7 @@ func runBatch(l cl.Local, cases []scanCase) ([]error, error) {
 		// more than one tick away)
 		time.Sleep(settleAfter)
 		for i, c := range cases {
-			if verdicts[i] != nil {
+			if verdicts[i] != nil || dropped[i] {
 				continue
 			}
 			var want map[string]map[string]bool
@@ -365,7 +478,11 @@ func runBatch(l cl.Local, cases []scanCase) ([]error, error) {
 				if ph < len(c.Phases) && len(c.Phases[ph].OnHold) > 0 {
 					hold = fmt.Sprintf(" [%d of the probes arrived while a report for %s was being delivered to a channel that takes %d ms]", len(c.Phases[ph].OnHold), sources[c.Hold-1].IP, c.HoldMs)
 				}
-				verdicts[i] = fmt.Errorf("burst %d of %d: %v%s%s", ph+1, len(c.Phases), v, waited, hold)
+				pace := ""
+				if ph < len(c.Phases) && c.Phases[ph].SpanMs > 0 {
+					pace = fmt.Sprintf(" [the burst took its time: %d probes back to back, the other %d spread over %d ms, no two more than %d ms apart and no two of one source and protocol more than %d ms]", c.Phases[ph].Head, len(c.Phases[ph].Probes)-c.Phases[ph].Head, c.Phases[ph].SpanMs, maxGapMs, maxGroupGapMs+maxExcessMs)
+				}
+				verdicts[i] = fmt.Errorf("burst %d of %d: %v%s%s%s", ph+1, len(c.Phases), v, waited, hold, pace)
 			}
 		}
 	}
@@ -418,6 +535,13 @@ func classify(c scanCase) (label, fp string) {
 	if c.Hold > 0 {
 		label += "/slow-channel"
 		nontrivial = true
+	}
+	for _, p := range c.Phases {
+		if p.SpanMs > 0 {
+			label += fmt.Sprintf("/paced=%dperiod", p.SpanMs/5000)
+			nontrivial = true
+			break
+		}
 	}
 	if nontrivial {
 		return label, vlib.JSON(c)
@@ -486,6 +610,44 @@ func genCase(rt *rapid.T, label string, nph int) scanCase {
 			first.OnHold = append(first.OnHold, genProbe(rt, label, b, rapid.SampledFrom(bp).Draw(rt, label+"proto"), few, true, i))
 		}
 	}
+	// how long the first burst takes: back to back, or spread over more than one / more
+	// than two detector periods (a scan that takes its time is more often a big one)
+	span := rapid.SampledFrom([]int{0, 0, 0, 5500, 10500}).Draw(rt, label+"span")
+	if span > 0 && c.Hold == 0 {
+		if rapid.IntRange(0, 3).Draw(rt, label+"paced-big") > 0 {
+			m := rapid.SampledFrom([]int{101, 102, 110, 130, 150}).Draw(rt, label+"paced-n")
+			if len(first.Probes) > m {
+				first.Probes = first.Probes[:m]
+			}
+			for i := len(first.Probes); i < m; i++ {
+				first.Probes = append(first.Probes, genProbe(rt, label, rapid.IntRange(0, nsrc-1).Draw(rt, label+"src"), rapid.SampledFrom(protos).Draw(rt, label+"proto"), few, wide, i))
+			}
+		}
+		minTail := span/1500 + 1
+		for i := len(first.Probes); i < minTail+1; i++ {
+			first.Probes = append(first.Probes, genProbe(rt, label, rapid.IntRange(0, nsrc-1).Draw(rt, label+"src"), rapid.SampledFrom(protos).Draw(rt, label+"proto"), few, wide, i))
+		}
+		head := rapid.SampledFrom([]int{0, 1, 50, 100, 101, 102, 120}).Draw(rt, label+"head")
+		if head > len(first.Probes)-minTail {
+			head = len(first.Probes) - minTail
+		}
+		first.Head, first.SpanMs = head, span
+		if first.groupGapMs() > maxGroupGapMs {
+			// a group whose own probes would pause for seconds while others scan is not
+			// clearly one burst: the slow part of this scan comes from one group
+			g := first.Probes[len(first.Probes)-1]
+			for i := head; i < len(first.Probes); i++ {
+				q := &first.Probes[i]
+				q.Src, q.Proto = g.Src, g.Proto
+				if q.Proto != "icmp" && q.Port == 0 {
+					q.Port = uint16(21000 + i)
+				}
+			}
+			if first.groupGapMs() > maxGroupGapMs {
+				first.Head, first.SpanMs = 0, 0
+			}
+		}
+	}
 	c.Phases = append(c.Phases, first)
 	// later bursts: the same group again, other sources, or anything
 	for ph := 1; ph < nph; ph++ {
@@ -524,13 +686,13 @@ func genCase(rt *rapid.T, label string, nph int) scanCase {
 	return c
 }
 
-const ruleText = "scan cases of 1..3 bursts; a burst has 1..150 probes (TCP SYN with/without options to 17 ports or to distinct high ports, UDP with 0/1/4/18 payload bytes to 11 undecoded ports or distinct high ports, ICMP echo with 0/1/16/32 payload bytes) with repeated ports from 1..4 sources (three behind one router hardware address) in rapid-drawn interleavings, written to the socketpair of hooked canaries running the real Start() loop and knock detector in a child; 48-96 independent canaries share the detector ticks of a batch. A later burst of a case (same source and protocol again, other sources, or anything) is sent after the previous burst's reports are complete and one more tick was observed. In a fifth of the multi-source cases the event channel takes 1.2 s per port-scan event of one source and 101..150 probes of another source arrive while such an event is being delivered. Oracle per burst and (source, destination): the concatenation of portscan.ports over the events of the burst's window is duplicate-free and equals the distinct protocol/port pairs that source probed in the burst; no event for a source that sent nothing in it. non-trivial = a repeated protocol/port pair, >= 3 (source, protocol) groups live at a tick, a (source, protocol) group scanning again in a later burst, or a slow-channel case; plus all operation sequences of length <= 6 over 3 keys on the grouping container UniqueSet against an ordered-set model"
+const ruleText = "scan cases of 1..3 bursts; a burst has 1..150 probes (TCP SYN with/without options to 17 ports or to distinct high ports, UDP with 0/1/4/18 payload bytes to 11 undecoded ports or distinct high ports, ICMP echo with 0/1/16/32 payload bytes) with repeated ports from 1..4 sources (three behind one router hardware address) in rapid-drawn interleavings, written to the socketpair of hooked canaries running the real Start() loop and knock detector in a child; 48-96 independent canaries share the detector ticks of a batch. A later burst of a case (same source and protocol again, other sources, or anything) is sent after the previous burst's reports are complete and one more tick was observed. Two fifths of the first bursts take their time: 0/1/50/100/101/102/120 probes back to back, the others evenly spread over 5.5 s or 10.5 s (more than one / two detector periods; gaps <= 1.5 s and <= 2 s between probes of one source and protocol, measured in the child - a burst whose probes were really written >= 2.5 s apart or that took >= 2 s longer than planned is dropped as inconclusive), three quarters of those with 101..150 probes. In a fifth of the multi-source cases the event channel takes 1.2 s per port-scan event of one source and 101..150 probes of another source arrive while such an event is being delivered. Oracle per burst and (source, destination): the concatenation of portscan.ports over the events of the burst's window is duplicate-free and equals the distinct protocol/port pairs that source probed in the burst; no event for a source that sent nothing in it; a source that probed over k protocols in the burst is reported in at most k events (the listener groups by protocol) - more means one burst was reported in pieces. non-trivial = a repeated protocol/port pair, >= 3 (source, protocol) groups live at a tick, a (source, protocol) group scanning again in a later burst, a slow-channel case, or a paced burst; plus all operation sequences of length <= 6 over 3 keys on the grouping container UniqueSet against an ordered-set model"
 
 // kind reduces an oracle message to its failure kind.
 func kind(err error) string {
 	m := err.Error()
 	var ks []string
-	for _, k := range []string{"never reported []", "listed more than once []", "not probed []", "which sent nothing", "without a portscan.ports", "for destination", "burst 1 of", "was being delivered"} {
+	for _, k := range []string{"never reported []", "listed more than once []", "not probed []", "which sent nothing", "port-scan events for one burst", "without a portscan.ports", "for destination", "burst 1 of", "was being delivered"} {
 		if strings.Contains(m, k) {
 			ks = append(ks, k)
 		}
@@ -636,6 +798,9 @@ func TestBursts(t *testing.T) {
 			box.Set(err)
 		}
 	})
+	if n := atomic.SwapInt64(&inconclusivePaced, 0); n > 0 {
+		r.Label("paced/inconclusive-sender-stalled", n)
+	}
 	if e := box.Err(); e != nil {
 		t.Fatalf("infra: %v", e)
 	}
@@ -703,7 +868,19 @@ func TestBurstShapes(t *testing.T) {
 	slow := func(a int, first []probe, big []probe) scanCase {
 		return scanCase{Hold: a + 1, HoldMs: 1200, Phases: []phase{{Probes: first, OnHold: big}}}
 	}
+	paced := func(head, span int, ps ...[]probe) scanCase {
+		return scanCase{Phases: []phase{{Probes: join(ps...), Head: head, SpanMs: span}}}
+	}
 	shapes := []scanCase{
+		// scans that take longer than one / two detector periods
+		paced(105, 5500, many(0, "tcp", 117, 117)),
+		paced(101, 10500, many(0, "udp", 150, 150)),
+		paced(110, 5500, many(0, "tcp", 120, 3)),
+		paced(0, 10500, many(0, "tcp", 150, 150)),
+		paced(0, 5500, many(0, "udp", 100, 100)),
+		paced(2, 5500, rep(0, "tcp", 80, 443), rep(0, "tcp", 21, 23, 25, 110, 143, 993)),
+		paced(130, 5500, many(1, "tcp", 120, 120), many(2, "udp", 20, 20)),
+		paced(101, 10500, many(3, "tcp", 101, 101), icmp(3, 9)),
 		one(rep(0, "tcp", 80)),
 		one(rep(0, "udp", 7000)),
 		one(icmp(0, 1)),
@@ -760,6 +937,9 @@ func TestBurstShapes(t *testing.T) {
 	verdicts, err := runBatch(l, shapes)
 	if err == nil {
 		err = confirmAndReport(t, r, l, "TestBurstShapes", shapes, verdicts, map[string]bool{}, 4)
+	}
+	if n := atomic.SwapInt64(&inconclusivePaced, 0); n > 0 {
+		r.Label("paced/inconclusive-sender-stalled", n)
 	}
 	if err != nil {
 		t.Fatalf("infra: %v", err)
